@@ -389,7 +389,7 @@ def _(c):
 
 @conic("set-exp-ball")
 def _(c):
-    return _sup(c, lambda c, m, z: [rsome.exp(z).sum() <= c.fresh_real("r"), rsome.norm(z, 2) <= c.fresh_real("g")])
+    return _sup(c, lambda c, m, z: [rsome.exp(z) <= c.fresh_real("r"), rsome.norm(z, 2) <= c.fresh_real("g")])
 
 
 def _ro(c, build):
